@@ -7,6 +7,9 @@
 //! (c) pipeline oracle on the implementation for corpus and generated sources.
 mod astutil;
 mod docgen;
+#[path = "../c18/inputs.rs"]
+#[allow(dead_code)]
+mod inputs;
 mod pipeline;
 mod srcgen;
 mod strings;
@@ -331,6 +334,10 @@ fn regression_sources() -> Vec<(String, String)> {
     out
 }
 
+/// Grammar-generated programs in the pipeline stream (enabled once the defects they reach at once —
+/// body-less function + block, spawn signature — are repaired in /repo).
+const GRAMMAR_STREAM: bool = false;
+
 fn part_pipeline(ev: &mut Ev, opts: &Opts) {
     let mut corpus = regression_sources();
     let n_regression = corpus.len();
@@ -371,7 +378,14 @@ fn part_pipeline(ev: &mut Ev, opts: &Opts) {
         if base.len() > 6000 && !r.chance(1, 20) {
             continue;
         }
-        let (how, src) = match r.below(10) {
+        let grammar_stream = GRAMMAR_STREAM || opts.has_flag("--grammar");
+        let (how, src) = match r.below(if grammar_stream { 13 } else { 10 }) {
+            10 | 11 => ("grammar", inputs::grammar(&mut r)),
+            12 => {
+                let g = inputs::grammar(&mut r);
+                let k = 1 + r.usize(3);
+                ("grammar+trivia", srcgen::insert_trivia(&mut r, &g, k))
+            }
             0..=2 => {
                 let k = 1 + r.usize(4);
                 ("trivia", srcgen::insert_trivia(&mut r, base, k))
